@@ -18,10 +18,11 @@
 static Trace g_tr;
 struct Cb;
 static void adder_hook();
+static void copier_hook();
 struct Cb {
 	uint32_t id;
 	explicit Cb(uint32_t i) : id(i) {}
-	void operator()(uint32_t a) const { g_tr.add(id, a, 0); if(id == 7777u) adder_hook(); }
+	void operator()(uint32_t a) const { g_tr.add(id, a, 0); if(id == 7777u) adder_hook(); if(id == 6666u) copier_hook(); }
 	bool operator==(const Cb & o) const { return id == o.id; }
 };
 #ifndef THREADING
@@ -57,7 +58,7 @@ struct G { alignas(16) unsigned char store[NO][sizeof(T)]; Model m; uint32_t nex
 static G * g;
 static T * obj(int i) { return reinterpret_cast<T *>(g->store[i]); }
 
-enum { COV_COPY_CTOR = 0, COV_MOVE_CTOR, COV_COPY_ASSIGN, COV_MOVE_ASSIGN, COV_SWAP, COV_SELF_ASSIGN, COV_SELF_SWAP, COV_COPY_THEN_DIVERGE, COV_QUEUE_COPY_PENDING, COV_N };
+enum { COV_COPY_CTOR = 0, COV_MOVE_CTOR, COV_COPY_ASSIGN, COV_MOVE_ASSIGN, COV_SWAP, COV_SELF_ASSIGN, COV_SELF_SWAP, COV_COPY_THEN_DIVERGE, COV_QUEUE_COPY_PENDING, COV_COPY_IN_LISTENER, COV_COPY_UNDER_DQN, COV_N };
 
 #if OBJ == 0
 static T * g_adder_target = nullptr;
@@ -65,6 +66,9 @@ static void adder_hook() { if(g_adder_target) g_adder_target->append(Cb(7778u));
 #else
 static void adder_hook() {}
 #endif
+
+static int g_copy_src = -1, g_copy_dst = -1;
+static void copier_hook();
 
 static T::Handle add(int i, uint32_t id)
 {
@@ -174,6 +178,16 @@ static void copy_model(int from, int to, bool with_pending)
 	if(with_pending) { m.np[to] = m.np[from]; for(int k = 0; k < m.np[from]; k++) m.pend[to][k] = m.pend[from][k]; }
 }
 
+static void copier_hook()
+{
+	// copy-construct the object from inside one of its own listeners (for queues: while process() is running)
+	if(g_copy_src >= 0 && g_copy_dst >= 0) {
+		vf_havoc(g->store[g_copy_dst], sizeof(T));
+		new (g->store[g_copy_dst]) T(*obj(g_copy_src));
+		g_copy_src = -1;
+	}
+}
+
 extern "C" void harness()
 {
 	g = new G(); Model & m = g->m; g->nextid = 10;
@@ -190,10 +204,14 @@ extern "C" void harness()
 	}
 #endif
 	g->hid[0] = g->nextid; g->hown[0] = 0; g->h[0] = add(0, g->nextid); m.ids[0][m.n[0]++] = g->nextid++;
+#if IS_HETER
+	g->nextid++;      // both initial listeners get even ids = prototype void(uint32_t); the other prototype's slot exists but is empty
+#endif
 	g->hid[1] = g->nextid; g->hown[1] = 0; g->h[1] = prepend(0, g->nextid); for(int k = m.n[0]; k > 0; k--) m.ids[0][k] = m.ids[0][k - 1]; m.ids[0][0] = g->nextid++; m.n[0]++;
 
+	observe();      // also instantiates, empty, the per-prototype sub-list of the prototype nobody listens to yet (heterogeneous classes)
 	for(int step = 0; step < KK; step++) {
-		unsigned kind = vf_choose(IS_QUEUE ? 9 : 7);
+		unsigned kind = vf_choose(OBJ == 2 ? 11 : (IS_QUEUE ? 9 : 7));
 		unsigned na = 0; int al[NO];
 		for(int i = 0; i < NO; i++) if(m.alive[i]) al[na++] = i;
 		int i = al[vf_choose(na)];
@@ -261,6 +279,31 @@ extern "C" void harness()
 				vf_cover(COV_SWAP);
 			} else vf_cover(COV_SELF_SWAP);
 		}
+#if OBJ == 2
+		else if(kind == 9) {              // copy-construct from inside a listener while process() runs
+			int j = free_slot();
+			if(j >= 0 && m.n[i] < MAXL && m.np[i] == 0) {
+				add(i, 6666u); m.ids[i][m.n[i]++] = 6666u;
+				g_copy_src = i; g_copy_dst = j;
+				obj(i)->enqueue(EV, 1u); obj(i)->process();
+				vf_assert(g_copy_src == -1, 136);
+				m.alive[j] = true; copy_model(i, j, false); m.np[j] = 0;
+				// retire the special listener from both (it would copy again otherwise)
+				bool r1 = eventpp::removeListener(*obj(i), EV, Cb(6666u)), r2 = eventpp::removeListener(*obj(j), EV, Cb(6666u));
+				vf_assert(r1 && r2, 137); m.n[i]--; m.n[j]--;
+				vf_cover(COV_COPY_IN_LISTENER);
+			}
+		}
+		else if(kind == 10) {             // copy-construct while a DisableQueueNotify guard is alive on the source
+			int j = free_slot();
+			if(j >= 0) {
+				vf_havoc(g->store[j], sizeof(T));
+				{ T::DisableQueueNotify guard(obj(i)); new (g->store[j]) T(*obj(i)); }
+				m.alive[j] = true; copy_model(i, j, false); m.np[j] = 0;
+				vf_cover(COV_COPY_UNDER_DQN);
+			}
+		}
+#endif
 #if IS_QUEUE
 		else if(kind == 7) { if(m.np[i] < MAXL) { uint32_t a = vf_nondet_u32(); obj(i)->enqueue(EV, a); m.pend[i][m.np[i]++] = a; } }
 		else {
